@@ -95,121 +95,172 @@ def list_fns(ctx, cond):
     return sorted(set(out))
 
 
-def loop_summaries(ctx, fns, rule):
-    """R2/R3: per list function: (flag loopvar key, init, flipped, comparator kind)"""
-    res = {}
-    for fn in fns:
-        outs = ctx.px(fn)
-        info = P.BodyInfo(ctx.facts.bodies[fn])
-        flags = {}
-        for o in outs:
-            if o.kind != "backedge":
-                continue
-            header = o.where[1]
-            lev = o.state.extra.get("loop_entry_values", {})
-            # comparator call on this path
-            cmps = [e for e in o.events if e["k"] == "call" and e["callee"].get("res_local") and e["dest"]["ty"].get("k") == "bool" and len(e["args"]) == 2]
-            for (f2, h2, key), init in lev.items():
-                if f2 != fn or h2 != header or key[0] != "L":
-                    continue
-                lty = ctx.facts.bodies[fn]["locals"][key[1]]
-                if lty.get("k") != "bool" or key[2]:
-                    continue
-                # skip drop flags: bool locals only ever assigned constants and never read by user code are still fine to skip: they are not returned
-                newv = o.state.env.get(("L", 0, key[1]))
-                lv = ("loopvar", fn, header, key, 0)
-                rec = flags.setdefault(key, {"init": init, "updates": [], "header": header})
-                cmpv = None
-                cmpev = None
-                for e in cmps:
-                    r = e.get("result")
-                    if r in o.cons.known:
-                        cmpv, cmpev = o.cons.known[r], e
-                rec["updates"].append({"new": newv, "lv": lv, "cmp": cmpv, "cmpev": cmpev, "o": o})
-        # the result flag = the bool loop variable that is returned at loop exit
-        exit_flags = set()
-        for o in outs:
-            if o.kind == "return":
-                s = fmt_term(o.value)
-                for key in flags:
-                    lvs = fmt_term(("loopvar", fn, flags[key]["header"], key, 0))
-                    if lvs in s:
-                        exit_flags.add(key)
-        if len(exit_flags) != 1:
-            ctx.violation(rule, "%s|%s|flag" % (rule, fn), "UNRECOGNISED: %s does not return exactly one loop-carried flag (%d found)" % (fn, len(exit_flags)))
+def _subterms(t, out, depth=0):
+    if not isinstance(t, tuple) or not t or depth > 40:
+        return
+    if isinstance(t[0], str):
+        if t[0] == "loopvar":
+            out.add(t)
+            return
+        for x in t[1:]:
+            _subterms(x, out, depth + 1)
+    else:
+        for x in t:
+            _subterms(x, out, depth + 1)
+
+
+def _is_cmp_call(ctx, e):
+    return SM._is_tag_comparator_call(ctx, e)
+
+
+def loop_summaries(ctx, outs, rule):
+    """R2/R3 on the rows of the *expanded* conditional function: every loop that walks a tag list (a `for` loop in a list
+    function, or one `Iterator::fold` - possibly inside a helper shared by both list functions, in which case the two
+    expansions are two instances) is summarised as (request header it serves, result flag, initial value, comparator).
+    -> {flag loop-variable term: summary}"""
+    # loop variables that the function's result depends on
+    used = set()
+    for o in outs:
+        if o.kind != "return":
             continue
-        key = next(iter(exit_flags))
-        rec = flags[key]
-        init = rec["init"]
+        _subterms(o.value, used)
+        for tt in o.cons.known:
+            _subterms(tt, used)
+        for tt in o.cons.variant:
+            _subterms(tt, used)
+    inst = {}
+    for o in outs:
+        if o.kind != "backedge":
+            continue
+        fn, header = o.where
+        frames = o.state.frames
+        is_fold = isinstance(header, tuple)
+        loop_frames = frames[:-1] if is_fold else frames
+        sig = P.chain_sig_of(loop_frames)
+        fid = loop_frames[-1].fid
+        rec = inst.setdefault((fn, header, sig), {"rows": [], "hdrs": set()})
+        # the header whose value is being walked: the last header lookup before this loop was entered
+        idx_enter = max([i for i, e in enumerate(o.events) if e["k"] == "loop_enter" and e["fn"] == fn and e["bb"] == header and e.get("sig", ()) == sig] or [0])
+        hdr = None
+        for e in o.events[:idx_enter]:
+            if e["k"] == "call" and e["callee"].get("path", "").endswith("HeaderMap::<T>::get"):
+                a = e["args"][1]
+                if isinstance(a, tuple) and a[0] == "named":
+                    hdr = a[1].split("::")[-1]
+        rec["hdrs"].add(hdr)
+        cmps = [e for e in o.events[idx_enter:] if _is_cmp_call(ctx, e)]
+        rec["rows"].append({"o": o, "cmps": cmps, "fid": fid, "is_fold": is_fold})
+    res = {}
+    for (fn, header, sig), rec in sorted(inst.items(), key=lambda kv: str(kv[0])):
+        label = "%s%s" % (fn, " via " + " > ".join(c for c, _ in sig) if sig else "")
+        # candidate flags: two-valued loop-carried places of this instance that the result depends on
+        flags = {}
+        for row in rec["rows"]:
+            o = row["o"]
+            lev = o.state.extra.get("loop_entry_values", {})
+            for k4, init in lev.items():
+                if len(k4) == (4 if sig else 3) and k4[0] == fn and k4[1] == header and (not sig or k4[3] == sig):
+                    key = k4[2]
+                    lv = ("loopvar", fn, header, key, 0) + ((sig,) if sig else ())
+                    if lv not in used or key[2]:
+                        continue
+                    if key[0] == "L":
+                        if ctx.facts.bodies[fn]["locals"][key[1]].get("k") != "bool":
+                            continue
+                        newv = o.state.env.get(("L", row["fid"], key[1]))
+                    elif key[0] == "F" and row["is_fold"]:
+                        newv = o.value
+                    else:
+                        continue
+                    cmpv = cmpev = None
+                    for e in row["cmps"]:
+                        r = e.get("result")
+                        if r in o.cons.known:
+                            cmpv, cmpev = o.cons.known[r], e
+                        elif newv == r or newv == ("unop", "Not", r):
+                            cmpev = e     # the comparator's answer is stored without being branched on
+                    flags.setdefault(lv, {"init": init, "updates": []})["updates"].append(
+                        {"new": newv, "lv": lv, "cmp": cmpv, "cmpev": cmpev, "o": o})
+        if not flags:
+            continue    # a loop the result does not depend on through a flag (e.g. the tokeniser's whitespace skip)
+        if len(flags) != 1 or len(rec["hdrs"]) != 1:
+            ctx.violation(rule, "%s|%s|flag" % (rule, fn), "UNRECOGNISED: the tag-list loop in %s has %d loop-carried result flags over headers %s (expected one flag, one header)" %
+                          (label, len(flags), sorted(str(h) for h in rec["hdrs"])))
+            continue
+        lv, frec = next(iter(flags.items()))
+        hdr = next(iter(rec["hdrs"]))
+        init = frec["init"]
         if not is_const(init):
-            ctx.violation(rule, "%s|%s|init" % (rule, fn), "the result flag of %s is not initialised to a constant before the loop" % fn)
+            ctx.violation(rule, "%s|%s|init" % (rule, fn), "the result flag of the tag-list loop in %s is not initialised to a constant before the loop" % label)
             continue
         flipped = const(1 - init[1])
         cmpfn = None
         bad = None
-        for u in rec["updates"]:
-            new, lv, cmpv = u["new"], u["lv"], u["cmp"]
-            old_known = u["o"].cons.known.get(lv)
-            if cmpv == 1:
-                cmpfn = u["cmpev"]["callee"]["res_path"]
-                a, b = u["cmpev"]["args"]
+        for u in frec["updates"]:
+            new, cmpv = u["new"], u["cmp"]
+            o = u["o"]
+            old_known = o.cons.known.get(lv)
+            ce = u["cmpev"]
+            if ce is not None:
+                cmpfn = cmpfn or ce["callee"]["res_path"]
+                a, b = ce["args"]
                 sa, sb = fmt_term(a), fmt_term(b)
-                if not (("next" in sa and "arg1" in sb) or ("next" in sb and "arg1" in sa)):
+                item_a = "next" in sa or "fold_item" in sa
+                item_b = "next" in sb or "fold_item" in sb
+                if item_a == item_b or not (("arg1" in sb or "etag" in sb.lower()) if item_a else ("arg1" in sa or "etag" in sa.lower())):
                     bad = "the comparator is not applied to (list item, entity tag): (%s, %s)" % (sa[:60], sb[:60])
+            if cmpv == 1:
                 if new != flipped:
                     bad = "a matching item does not set the flag to %s (new value %s)" % (flipped[1], short(new, 40))
-            else:
-                # while the flag still has its initial value the comparator must be consulted for this item
-                if old_known == init[1] and u["cmpev"] is None:
-                    bad = "an item is skipped without calling the comparator although no earlier item matched (the flag can never flip)"
-                # no match evaluated / no match: flag keeps its value
+            elif cmpv == 0:
                 if new != lv and not (old_known is not None and new == const(old_known)):
-                    if u["cmpev"] is not None:
-                        cmpfn = cmpfn or u["cmpev"]["callee"]["res_path"]
                     bad = "the flag changes (to %s) on an iteration without a comparator match" % short(new, 40)
-            if u["cmpev"] is not None:
-                cmpfn = cmpfn or u["cmpev"]["callee"]["res_path"]
+            elif ce is not None and new in (ce.get("result"), ("unop", "Not", ce.get("result"))):
+                # flag' = cmp(item, etag) (`flag || cmp`, initial value 0) or !cmp(item, etag) (`flag && !cmp`, initial value 1),
+                # on the rows where the flag still has its initial value
+                want_new = ce.get("result") if init[1] == 0 else ("unop", "Not", ce.get("result"))
+                if old_known != init[1] or new != want_new:
+                    bad = "the comparator's answer overwrites the flag (earlier matches are forgotten) or is stored with the wrong polarity"
+            else:
+                # no comparator consulted on this row
+                if old_known == init[1]:
+                    bad = "an item is skipped without calling the comparator although no earlier item matched (the flag can never flip)"
+                elif new != lv and not (old_known is not None and new == const(old_known)):
+                    bad = "the flag changes (to %s) on an iteration without a comparator match" % short(new, 40)
         if bad:
-            ctx.violation(rule, "%s|%s|monotone" % (rule, fn), "%s: %s" % (fn, bad))
+            ctx.violation(rule, "%s|%s|monotone" % (rule, fn), "%s: %s" % (label, bad))
             continue
         if cmpfn is None:
-            ctx.violation(rule, "%s|%s|no-comparator" % (rule, fn), "%s: no comparator call found in the list loop" % fn)
+            ctx.violation(rule, "%s|%s|no-comparator" % (rule, fn), "%s: no comparator call found in the list loop" % label)
             continue
         kind, why = etagcmp.comparator_kind(ctx, cmpfn)
-        res[fn] = {"key": key, "header": rec["header"], "init": init[1], "flipped": flipped[1], "cmpfn": cmpfn, "cmpkind": kind}
-        ctx.ok(rule, "%s: flag starts %d, flips to %d only under %s(item, etag) [%s]" % (fn, init[1], flipped[1], cmpfn, kind))
+        res[lv] = {"lv": lv, "fn": fn, "label": label, "hdr": hdr, "init": init[1], "flipped": flipped[1], "cmpfn": cmpfn, "cmpkind": kind}
+        ctx.ok(rule, "%s [%s]: flag starts %d, flips to %d only under %s(item, etag) [%s]" % (label, hdr, init[1], flipped[1], cmpfn, kind))
     return res
 
 
 def r1_table(ctx):
     cond = find_cond_fn(ctx)
-    lfs = list_fns(ctx, cond)
-    summ = loop_summaries(ctx, lfs, "C04.R3")
-    ctx.floor("C04.R3", len(summ), 2, what="tag-list functions with a recognised monotone flag")
-    # which list function serves which header
-    hdr_of = {}
-    for fn in lfs:
-        for o in ctx.px(fn):
-            for e in o.events:
-                if e["k"] == "call" and e["callee"].get("path", "").endswith("HeaderMap::<T>::get"):
-                    a = e["args"][1]
-                    if isinstance(a, tuple) and a[0] == "named":
-                        hdr_of[fn] = a[1].split("::")[-1]
+    # every crate-local callee (the list functions, any helper a maintainer extracts, a shared list-walking helper) is
+    # expanded; the tag comparators stay calls (they are recognised by their own tables)
+    cmpfns = {n for n, b in ctx.facts.bodies.items() if b["kind"] == "fn" and b["locals"][0]["s"] == "bool" and b["arg_count"] == 2 and
+              all(b["locals"][i]["s"].endswith("[u8]") for i in (1, 2))}
+    outs = ctx.px(cond, inline=lambda c, d: bool(c.get("res_local")) and c.get("res_path") not in cmpfns, key="all-local", max_depth=6)
+    summ = loop_summaries(ctx, outs, "C04.R3")
+    ctx.floor("C04.R3", len(summ), 2, what="tag-list loops with a recognised monotone flag")
     # R2: comparator kinds
-    for fn, s in summ.items():
-        h = hdr_of.get(fn)
+    for lv, s in summ.items():
+        h = s["hdr"]
         want = {"IF_MATCH": "strong", "IF_NONE_MATCH": "weak"}.get(h)
         if want is None:
-            ctx.violation("C04.R2", "C04.R2|%s|header" % fn, "UNRECOGNISED: %s reads header %s" % (fn, h))
+            ctx.violation("C04.R2", "C04.R2|%s|header" % s["fn"], "UNRECOGNISED: the tag-list loop in %s walks header %s" % (s["label"], h))
         elif s["cmpkind"] != want:
             ctx.violation("C04.R2", "C04.R2|%s" % h, "%s is matched with `%s`, which is the %s comparison; RFC 7232 requires the %s one" % (h, s["cmpfn"], s["cmpkind"], want))
         else:
             ctx.ok("C04.R2", "%s uses the %s comparison (%s)" % (h, want, s["cmpfn"]))
-    ctx.floor("C04.R2", len(summ), 2, what="list functions with a recognised comparator")
-    # every crate-local callee (the list functions, and any helper a maintainer extracts) is expanded; the comparators
-    # are only called inside the summarised list loops
-    cmpfns = {s["cmpfn"] for s in summ.values()}
-    outs = ctx.px(cond, inline=lambda c, d: bool(c.get("res_local")) and c.get("res_path") not in cmpfns, key="all-local")
+    ctx.floor("C04.R2", len(summ), 2, what="list loops with a recognised comparator")
+    if {s["hdr"] for s in summ.values()} != {"IF_MATCH", "IF_NONE_MATCH"}:
+        ctx.violation("C04.R2", "C04.R2|headers", "UNRECOGNISED: the tag-list loops do not serve exactly If-Match and If-None-Match (%s)" % sorted(str(s["hdr"]) for s in summ.values()))
     trie = Trie(outs)
     b = ctx.facts.bodies[cond]
     # parameter roles by type
@@ -225,7 +276,7 @@ def r1_table(ctx):
     if set(roles) != {"hdrs", "mtime", "etag"}:
         ctx.violation("C04.R1", "C04.R1|params", "UNRECOGNISED parameters of %s" % cond)
         return
-    cmptab = {fn: etagcmp.table(ctx, s["cmpfn"]) if s["cmpkind"] in ("strong", "weak", "other") else None for fn, s in summ.items()}
+    cmptab = {lv: etagcmp.table(ctx, s["cmpfn"]) if s["cmpkind"] in ("strong", "weak", "other") else None for lv, s in summ.items()}
     nrows = nfree = nbad = 0
     reported = set()
     for im, inm, ius, ims, mt, et in itertools.product(TAGLISTS, TAGLISTS, DATES, DATES, MTIMES, ETAGS):
@@ -260,6 +311,12 @@ def r1_table(ctx):
                 if isinstance(x, (int, float)):
                     return ("Ok", float(x))
                 return ("Err", "bad date")
+            if name.endswith("memmem::find") or name.endswith("memmem::rfind") or (last in ("find", "contains") and all(isinstance(a, str) for a in args)):
+                if all(isinstance(a, str) for a in args) and len(args) == 2:
+                    i = args[0].find(args[1])
+                    if last == "contains":
+                        return int(i >= 0)
+                    return Opt(i >= 0, i if i >= 0 else None)
             if last == "next":
                 return Opt(False)  # the rows evaluated are loop-exit rows
             if last == "duration_since":
@@ -287,14 +344,12 @@ def r1_table(ctx):
             if k == "named" and t[1].endswith("UNIX_EPOCH"):
                 return 0.0
             if k == "loopvar":
-                fn = t[1]
-                s = summ.get(fn)
-                if s and t[3] == s["key"]:
-                    h = hdr_of.get(fn)
-                    v = hv[h]
+                s = summ.get(t)
+                if s:
+                    v = hv[s["hdr"]]
                     match = False
                     if et[1] is not None and v[2]:
-                        tab = cmptab[fn]
+                        tab = cmptab[t]
                         for item in v[2]:
                             match = match or bool(_cmp_lookup(tab, item, et[1], s["cmpkind"]))
                     return s["flipped"] if match else s["init"]
